@@ -139,8 +139,20 @@ def run(ctx):
         "the .proto reader (vf/protoschema.py) handles the subset of the proto language api.proto uses",
         "direction is decided for the API calls the sweep makes with synthesised arguments and the scripted follow-ups; every other check's device decoder also sees only client writes",
     ]
+    # positional lookup in action: every protocol id and ids outside the table (also ones that equal a defined id
+    # modulo 2^8 / 2^16), both framings, on the real connection with a wildcard subscriber - the class each id is
+    # decoded as comes from the text of api.proto; traces validated by TLC (TraceConnection.tla)
+    from vf import connsim
+    from vf.props import conn_common
+
+    conn_common.dedicated(ctx, "c13sweep", [], lambda ctx, rng: {"id_sweep": connsim.c12_sweep_family(ctx.quick, rng)})
     ctx.notes.append("table equalities are evaluated by TLC but add nothing a diff would not (DESIGN 8); their value is that the same tables drive the dispatch checks")
 
 
 def replay(ctx, case):
+    if case.get("kind") == "conn-trace":
+        from vf.props import conn_common
+
+        conn_common.replay_case(ctx, case)
+        return
     run(ctx)
